@@ -6,6 +6,15 @@ HERE = os.path.dirname(os.path.dirname(os.path.abspath(__file__)))
 ALL = ["C%02d" % i for i in range(1, 21)]
 
 CLAIMED = {
+ "C01": dict(cat="proof", technique="polynomial identities (column sums of the transport operators) over weight formulas, stencil tables and index maps extracted from the clang AST",
+   text="Proves in exact real arithmetic, for all offsets, grid sizes, bunch counts, interpolation orders 1-4, derivation types and FPTypes, "
+        "that every column of each transport operator sums to one in the interior: interpolation weights sum to 1 and are applied as one "
+        "complete consecutive set per source (kick maps are shift-invariant along the kick), Fokker-Planck stencil column sums are 1 with a "
+        "defect proportional to the damping decrement confined to |row - zero-energy row| <= 2, identity copies B*N*N cells. "
+        "This is the necessary and sufficient algebraic condition for interior charge conservation; it does not measure rounding.",
+   note="Trusted: clang 14 front end, isa-extract, sympy expand. Abstracts float rounding; border rows excluded as in the statement; "
+        "OpenCL kernels not analysed (headers absent). Size lemma nx==ny and the ruler model are re-derived from the code on each run.",
+   ref="DESIGN.md §3 C01"),
  "C02": dict(cat="proof", technique="polynomial identities over weight formulas and index maps extracted from the clang AST (sympy normal forms)",
    text="Proves, in exact real arithmetic and for every fractional offset, grid size and order 1-4, that the interpolation weights "
         "are the Lagrange basis on the nodes the stencil writers actually use (hence partition of unity, exact reproduction of "
